@@ -519,7 +519,10 @@ func (c *specCtx) index(xv, iv sv) (sv, error) {
 			return sv{}, err
 		}
 		dom, val := e.mapRead(c.st, u, xv.S, kv.S)
-		return c.mk(u.Elem(), ite(dom, val, e.sc.zero(u.Elem()))), nil
+		mv := c.mk(u.Elem(), ite(dom, val, e.sc.zero(u.Elem())))
+		_, _, vk, _ := e.mapKeys(u)
+		c.assumeLoadedWF(mv.Val, vk)
+		return mv, nil
 	case *types.Pointer:
 		if arr, ok := u.Elem().Underlying().(*types.Array); ok {
 			i, err := c.toIdx(iv)
@@ -1028,7 +1031,7 @@ func (c *specCtx) call(n *ast.CallExpr) (sv, error) {
 			return sv{}, err
 		}
 		return c.mk(types.Typ[types.UnsafePointer], "(i-tag "+v.S+")"), nil
-	case "sent", "sentval", "recvd", "closed":
+	case "sent", "sentval", "recvd", "closed", "selrecvd":
 		// ghost record of channel sends performed by the function under verification
 		v, err := c.eval(args[0])
 		if err != nil {
@@ -1040,6 +1043,9 @@ func (c *specCtx) call(n *ast.CallExpr) (sv, error) {
 		}
 		if id.Name == "sent" {
 			return c.mk(tInt, fmt.Sprintf("(select %s %s)", e.sendCount(c.st), v.S)), nil
+		}
+		if id.Name == "selrecvd" {
+			return c.mk(tInt, fmt.Sprintf("(select %s %s)", e.selRecvCount(c.st), v.S)), nil
 		}
 		if id.Name == "closed" {
 			return c.mk(tBool, e.lt(e.sc.idxLit(0), fmt.Sprintf("(select %s %s)", e.closeCount(c.st), v.S))), nil
